@@ -126,4 +126,16 @@ CHECKS["C07"] = {
     "note": TRUST + HANDLER_NOTE,
     "technique": TECH,
 }
+CHECKS["C16"] = {
+    "category": "proof",
+    "text": "the class decision is proved where it is made: the wrap-up of __array_ufunc__ (shape () -> unyt_quantity, "
+            "more than one element -> never a quantity) for every verified ufunc class and operand configuration, "
+            "__getitem__ (0-d results become quantities with the parent's unit and name), Unit.__mul__ on data "
+            "(quantity iff shape (), always a copy), unyt_quantity.__new__ (refuses more than one element); the "
+            "accessors are proved to be views (.d, .ndview, ndarray_view()) or copies (.v, .value, to_ndarray()) and "
+            "the converting routes to return fresh memory and leave their input untouched",
+    "note": TRUST + UFUNC_NOTE + "; NumPy's indexing / view / copy semantics are assumed contracts (numpy-indexing, "
+            "numpy-elementwise); list coercion and reshape/transposes are covered by the bounded driver only",
+    "technique": TECH,
+}
 NOT_APPLICABLE = {}
